@@ -170,6 +170,10 @@ def check(res, tier):
         ("eof:open-text-no-newline", {"main.ddp": H + 'Schreibe "offen'}),
         ("eof:backslash-at-end", {"main.ddp": H + 'Schreibe "ab\\'}),
         ("eof:open-char", {"main.ddp": H + "Der Buchstabe b ist 'x\n"}),
+        ("eol:backslash-at-end-of-line-in-text", {"main.ddp": H + 'Schreibe "ab\\\nc".\n'}),
+        ("eol:backslash-at-end-of-line-in-char", {"main.ddp": H + "Der Buchstabe b ist '\\\n'.\n"}),
+        ("eol:backslash-at-end-of-last-line", {"main.ddp": H + 'Schreibe "ab\\\n'}),
+        ("eol:backslash-before-crlf", {"main.ddp": H + 'Schreibe "ab\\\r\nc".\n'}),
         ("eof:open-comment-then-newline", {"main.ddp": H + "Die Zahl z ist 1.\n[ offen\n"}),
         ("eof:open-block", {"main.ddp": H + "Wenn wahr, dann:\n"}),
         ("eof:open-function", {"main.ddp": H + "Die Funktion f gibt nichts zurück, macht:\n\tSchreibe 1.\n"}),
